@@ -401,6 +401,9 @@ func genC17(t *rapid.T) c17Case {
 		return string(b)
 	}
 	s := str("s", 12)
+	if rapid.IntRange(0, 5).Draw(t, "lookalike?") == 0 {
+		s, _ = genLookalike(t) // a text that looks like a timestamp, a number, a keyword ...: a string like any other
+	}
 	var tt string
 	switch rapid.IntRange(0, 4).Draw(t, "tkind") {
 	case 0:
@@ -453,7 +456,7 @@ func byteCut(s string, at int) int {
 // TestC17Random: random strings over small alphabets (repeats likely), multi-byte
 // text, needles drawn as prefixes/suffixes/middles of the haystack.
 func TestC17Random(t *testing.T) {
-	run := h.Begin("C17", "random", "rapid: s over small alphabets incl. multi-byte, NUL and regexp metacharacters; t drawn as prefix/suffix/middle/unrelated; positions -3..len+3; oracle: naive loops, unicode.ToLower/ToUpper, Go regexp for RE2 agreement; non-trivial as in the exhaustive part or multi-byte s")
+	run := h.Begin("C17", "random", "rapid: s over small alphabets incl. multi-byte, NUL and regexp metacharacters, or (1 in 6) a text that looks like a timestamp / number / keyword / document; t drawn as prefix/suffix/middle/unrelated; positions -3..len+3; oracle: naive loops, unicode.ToLower/ToUpper, Go regexp for RE2 agreement; non-trivial as in the exhaustive part or multi-byte s")
 	defer run.End(t)
 	h.RapidSetup(h.N(3000, 1000000), "c17")
 	rapid.Check(t, func(rt *rapid.T) {
